@@ -1,10 +1,10 @@
 package main
 
 import (
-	"go/types"
-	"go/ast"
 	"fmt"
+	"go/ast"
 	"go/token"
+	"go/types"
 	"strings"
 
 	"golang.org/x/tools/go/ssa"
@@ -489,7 +489,6 @@ func ruleM3(c *Ctx, id string) {
 		}
 	}
 }
-
 
 // relatedAll: the values vs together cover what related demands (related is a
 // predicate on one expression: offer it each value; a set covers when some
